@@ -46,11 +46,19 @@ def gen_torrent(rng, tag, tier, version=None, allow_dup_names=True):
                 size = twin[fname]          # same name, same size, different bytes elsewhere
             twin[fname] = size
             files.append((p, Blob.rand(rng.randrange(1, 40), size)))
+        if len(files) >= 2 and rng.random() < 0.2:
+            k = rng.randrange(len(files))                  # an empty file in a random position
+            files[k] = (files[k][0], Blob.rand(1, 0))
         if all(len(b) == 0 for _, b in files):
             files[0] = (files[0][0], Blob.rand(5, pl + 1))
     name = ("t" + tag) if not single else files[0][0]
     if not single and rng.random() < 0.12:
         files = [(name + "/" + p, b) for p, b in files]      # Album/Album/...
+    elif not single and version != 2 and rng.random() < 0.08:
+        # a directory whose only entry is a file of the same name (T/T): v1 and hybrid metafiles
+        # tell it from the single file T by their 'files' list; a pure v2 metafile cannot
+        # (BEP 52 gives both the same file tree), so it is not generated for version 2
+        files = [(name, next((b for _, b in files if len(b)), files[0][1]))]
     t = {"name": name, "files": [(p, b.token()) for p, b in files], "pl": pl,
          "version": version, "single": single,
          "source": rng.choice(["own", "own", "ref"])}
@@ -241,6 +249,7 @@ def rebuild_with_model(box, metafiles, sdirs, dest, drv, case):
     with quiet():
         asm = Assembler(list(metafiles), list(sdirs), dest)
     raised = None
+    raws = {meta.path: open(meta.path, "rb").read() for meta in asm.metafiles}
     index_model(drv, asm, sdirs, case)
     for meta in asm.metafiles:
         extract_model(drv, meta, case)
@@ -272,6 +281,11 @@ def rebuild_with_model(box, metafiles, sdirs, dest, drv, case):
                                                     filemap_tokens(asm.filemap), fstok)
         drv.ask(req, ("match", dict(case, metafile=os.path.basename(meta.path)),
                       (asm.counter - before, real, realw, exc)))
+        if len(raws[meta.path]) <= 200000:
+            drv.ask("rebuildbytes %s %d %s %s %s" % (_hx(raws[meta.path]), ds, _hx(os.path.abspath(dest)),
+                                                    filemap_tokens(asm.filemap), fstok),
+                    ("match-bytes", dict(case, metafile=os.path.basename(meta.path)),
+                     (asm.counter - before, real, realw, exc)))
     return asm.counter, raised
 
 
@@ -333,7 +347,17 @@ def extract_model(drv, meta, case):
         req = f"extractv1 {_hx(name)} {len(info[b'files'])} " + " ".join(toks)
     else:
         req = f"extractv1s {_hx(name)} {info[b'length']}"
-    drv.ask(req, ("match-extract", dict(case, metafile=os.path.basename(meta.path)), ",".join(got)))
+    tree = info.get(b"file tree", {})
+    if not (meta.meta_version == 2 and b"files" in info and list(tree) == [name] and b"" in tree.get(name, {})):
+        # (Impl.extractV2 takes the parsed tree alone and so cannot see the 'files' key that
+        # makes a hybrid T/{T} a directory; that decision is covered by extractmeta below)
+        drv.ask(req, ("match-extract", dict(case, metafile=os.path.basename(meta.path)), ",".join(got)))
+    # the same records from the metafile BYTES (Impl.extractMeta . Impl.loads): covers pyben.load,
+    # the version / single-file decisions and the set of file names as well
+    drv.ask("extractmeta " + _hx(raw),
+            ("match-meta", dict(case, metafile=os.path.basename(meta.path)),
+             (f"v{meta.meta_version}", str(meta.piece_length), ",".join(got) or "-",
+              sorted(_hx(n) for n in meta.filenames))))
 
 
 def settle_match(run, answers):
@@ -346,10 +370,24 @@ def settle_match(run, answers):
                 run.fail("impl-vs-model", slot[1], {"correspondence": "Impl.extractV1/V2 (file records)",
                                                     "model": out[:200], "impl": slot[2][:200]})
             continue
-        if not (isinstance(slot, tuple) and slot and slot[0] == "match"):
+        if isinstance(slot, tuple) and slot and slot[0] == "match-meta":
+            run.model_checked += 1
+            toks = out.strip().split(" ")
+            want = slot[2]
+            ok = len(toks) == 4 and tuple(toks[:3]) == want[:3] and \
+                sorted(t for t in toks[3].split(",") if t != "-") == want[3]
+            if not ok:
+                run.fail("impl-vs-model", slot[1], {"correspondence": "Impl.extractMeta (metafile bytes -> records)",
+                                                    "model": out[:300], "impl": " ".join(want[:3])[:300]})
+            continue
+        if not (isinstance(slot, tuple) and slot and slot[0] in ("match", "match-bytes")):
             rest.append((slot, req, out))
             continue
-        _, case, (count, real, realw, exc) = slot
+        if slot[0] == "match-bytes" and out.startswith("ERR") and not out.startswith("ERR bad-"):
+            run.model_checked += 1
+            run.fail("impl-vs-model", slot[1], {"correspondence": "Impl.rebuildFromBytes", "model": out[:200]})
+            continue
+        kind, case, (count, real, realw, exc) = slot
         if out.startswith("ERR"):
             raise MachineryError(f"driver: {req[:60]} -> {out[:120]}")
         run.model_checked += 1
@@ -366,7 +404,8 @@ def settle_match(run, answers):
         if not ok:
             dec = lambda t: bytes.fromhex(t.split(":")[1]).decode("utf8", "replace") if ":" in t else t
             run.fail("impl-vs-model", case,
-                     {"correspondence": "Impl.matchV1/matchV2 (operation trace, counter)",
+                     {"correspondence": "Impl.matchV1/matchV2 (operation trace, counter)" if kind == "match"
+                      else "Impl.rebuildFromBytes (metafile bytes -> operation trace, counter)",
                       "model_count": cnt, "impl_count": count, "raised": exc,
                       "model_ops": [o[:2] + dec(o) for o in mops][:8],
                       "impl_ops": [o[:2] + dec(o) for o in real][:8]})
